@@ -361,6 +361,104 @@ func c18(r *core.Report) {
 		}
 	}
 
+	// ---- C18-EXPIRY-AGREE: Expire opens a bucket on minExpiresAt-vs-now and removes entries on
+	// ExpiresAt-vs-now (Entry.IsExpired). The two comparisons must put the boundary instant on the same side,
+	// or whether an entry whose time is exactly now is removed depends on what else sits in its bucket.
+	r.Rule("C18-EXPIRY-AGREE", "the bucket gate of Expire and Entry.IsExpired compare an expiry time with now in the same sense (the instant of expiry falls on the same side)", 2)
+	{
+		classes := map[string][]string{}
+		n := 0
+		for _, nm := range []string{"Entry.IsExpired", "Cache.Expire", "bucket.expire"} {
+			fn := needFn(r, "p/kademlia", nm)
+			if fn == nil {
+				continue
+			}
+			r.Analysed(fn)
+			var now ssa.Value
+			for _, prm := range fn.Params {
+				if prm.Type().String() == "time.Time" {
+					now = prm
+				}
+			}
+			if now == nil {
+				r.Fail("C18-EXPIRY-AGREE: %s has no time.Time parameter", core.FnName(fn))
+				continue
+			}
+			isNow := func(v ssa.Value) bool {
+				return core.DerivesFromDirect(v, func(x ssa.Value) bool { return x == now })
+			}
+			isStamp := func(v ssa.Value) bool {
+				return core.DerivesFromDirect(v, func(x ssa.Value) bool {
+					f, _ := core.FieldRead(x)
+					return f != nil && (f.Name() == "ExpiresAt" || f.Name() == "minExpiresAt")
+				})
+			}
+			for _, in := range core.AllInstrs(fn) {
+				call, ok := in.(*ssa.Call)
+				if !ok {
+					continue
+				}
+				name := core.CalleeName(call.Common())
+				if name != "(time.Time).Before" && name != "(time.Time).After" && name != "(time.Time).Compare" && name != "(time.Time).Equal" {
+					continue
+				}
+				a, b := call.Call.Args[0], call.Call.Args[1]
+				var stampFirst bool
+				switch {
+				case isStamp(a) && isNow(b):
+					stampFirst = true
+				case isNow(a) && isStamp(b):
+					stampFirst = false
+				default:
+					continue
+				}
+				n++
+				c := fmt.Sprintf("%s %s", core.FnName(fn), strings.TrimPrefix(name, "(time.Time)."))
+				// stamp.Before(now) and now.After(stamp) (and their negations) leave an entry whose time is
+				// exactly now alive; now.Before(stamp) and stamp.After(now) (and their negations) expire it
+				class := ""
+				switch {
+				case name == "(time.Time).Before" && stampFirst, name == "(time.Time).After" && !stampFirst:
+					class = "alive at the instant of expiry"
+				case name == "(time.Time).Before" && !stampFirst, name == "(time.Time).After" && stampFirst:
+					class = "expired at the instant of expiry"
+				default:
+					r.Undecided("C18-EXPIRY-AGREE", c, p.Pos(call.Pos()), "expiry decided with Compare/Equal: the boundary side is not classified")
+					continue
+				}
+				classes[class] = append(classes[class], c+" at "+p.Pos(call.Pos()))
+			}
+		}
+		if n < 2 {
+			r.Fail("C18-EXPIRY-AGREE: found %d comparisons of an expiry time with now, expected the bucket gate and IsExpired", n)
+		}
+		if len(classes) <= 1 {
+			for cl, sites := range classes {
+				for _, s := range sites {
+					r.OK("C18-EXPIRY-AGREE", s[:strings.Index(s, " at ")], s[strings.Index(s, " at ")+4:], cl)
+				}
+			}
+		} else {
+			// the minority is reported
+			var minor string
+			for cl, sites := range classes {
+				if minor == "" || len(sites) < len(classes[minor]) || (len(sites) == len(classes[minor]) && cl < minor) {
+					minor = cl
+				}
+			}
+			for cl, sites := range classes {
+				for _, s := range sites {
+					c, pos := s[:strings.Index(s, " at ")], s[strings.Index(s, " at ")+4:]
+					if cl == minor {
+						r.Violation("C18-EXPIRY-AGREE", c, pos, "this comparison treats an entry as "+cl+" while the other expiry comparison(s) treat it as the opposite: Expire(now) removes an entry with ExpiresAt == now only if its bucket happens to be opened by another entry")
+					} else {
+						r.OK("C18-EXPIRY-AGREE", c, pos, cl)
+					}
+				}
+			}
+		}
+	}
+
 	// ---- C18-LOCK (shared engine with C14)
 	r.Rule("C18-LOCK", "count and buckets are accessed under Cache.mu", 10)
 	L := core.NewLocks(p, false)
